@@ -10,7 +10,12 @@
      every line the server end received from a fresh client, registration lines first
      (nreg of them): L = length without CRLF, t = arrival time, q = time the harness
      submitted it (= t for registration lines), ns since the client was created.
-   kind "hold":  input = ["hold"; c1; bad; c2]
+   kind "fresh": input = ["fresh"; line_1; ...; line_m]      (line CONTENT; it must not matter)
+                 obs   = as for "burst"
+     a brand-new client whose counters are never touched, Flood=false: registration lines,
+     then line_1..line_m submitted at once; stamps in ns since a clock reading taken just
+     before client.Client(cfg).
+   kind "hold":  input = ["hold"; line1; bad; line2]         (c1, c2 = the lines' lengths)
                  obs   = [lo1; b1; m1; r1; b2; lo2; m2]     (ns since t0)
      a connected client (Flood=false) whose counters are set to (bad, lastsent = t0) at the
      harness's clock reading t0; line 1 (c1 bytes) is submitted; on its arrival at the
@@ -22,6 +27,7 @@ Open Scope Z_scope.
 Definition k_rule : bytes := [114; 117; 108; 101]%N.
 Definition k_burst : bytes := [98; 117; 114; 115; 116]%N.
 Definition k_hold : bytes := [104; 111; 108; 100]%N.
+Definition k_fresh : bytes := [102; 114; 101; 115; 104]%N.
 
 (* measured arrival times are late by at most the server goroutine's read latency, never
    early: a tolerance in the safe direction only (FloodProofs.window_spec_measured) *)
@@ -68,9 +74,21 @@ Definition burst_ok (i o : list bytes) : bool :=
                   (skipn (get_nat o 0) ts)
      else C10_window_ok burst_tol (map (fun x => match x with (c, t, _) => (c, t) end) ts).
 
+Definition fresh_ok (i o : list bytes) : bool :=
+  let ts := triples (skipn 1 o) in
+  let ws := map (fun x => match x with (c, t, _) => (c, t) end) ts in
+  all_dec o && (Nat.eqb (1 + 3 * length ts) (length o))
+  && C10_window_ok burst_tol ws && C10_fresh_ok ws.
+
+(* registration lines first, then exactly the submitted lines (by length) *)
+Definition fresh_faithful (i o : list bytes) : bool :=
+  zlist_eqb (map len (skipn 1 i))
+            (map (fun x => fst (fst x)) (skipn (get_nat o 0) (triples (skipn 1 o))))
+  && (2 <=? getZ o 0).
+
 Definition hold_ok (i o : list bytes) : bool :=
-  all_dec (skipn 1 i) && all_dec o && (length i =? 4)%nat && (length o =? 7)%nat
-  && C10_hold_ok (getZ i 1) (getZ i 2) (getZ i 3)
+  all_dec [get i 2] && all_dec o && (length i =? 4)%nat && (length o =? 7)%nat
+  && C10_hold_ok (len (get i 1)) (getZ i 2) (len (get i 3))
                  (getZ o 0) (getZ o 1) (getZ o 2) (getZ o 3) (getZ o 4) (getZ o 5) (getZ o 6).
 
 (* what the harness sent is what arrived: the burst lines have the requested lengths *)
@@ -85,11 +103,12 @@ Definition model_C10 (i : list bytes) : list bytes :=
     let r := rate_limit {| fs_bad := getZ i 2; fs_last := - getZ i 3 |} 0 0 (getZ i 1) in
     [dec_of_Z (snd r); dec_of_Z (fs_bad (fst r))]
   else if beq (get i 0) k_burst then []
+  else if beq (get i 0) k_fresh then []
   else if beq (get i 0) k_hold then
     (* ideal run: no latency at all, each sleep exactly as requested *)
-    let r1 := rate_limit {| fs_bad := getZ i 2; fs_last := 0 |} 0 0 (getZ i 1) in
+    let r1 := rate_limit {| fs_bad := getZ i 2; fs_last := 0 |} 0 0 (len (get i 1)) in
     let w1 := snd r1 in
-    let r2 := rate_limit (fst r1) w1 w1 (getZ i 3) in
+    let r2 := rate_limit (fst r1) w1 w1 (len (get i 3)) in
     [dec_of_Z 0; dec_of_Z (fs_bad (fst r1)); dec_of_Z w1; dec_of_Z w1;
      dec_of_Z (fs_bad (fst r2)); dec_of_Z w1; dec_of_Z (w1 + snd r2)]
   else [tag_bad].
@@ -98,12 +117,14 @@ Definition oracle_C10 (i o : list bytes) : bool :=
   if beq (get i 0) k_rule then rule_ok i o
   else if beq (get i 0) k_burst then burst_ok i o
   else if beq (get i 0) k_hold then hold_ok i o
+  else if beq (get i 0) k_fresh then fresh_ok i o
   else false.
 
 Definition agree_C10 (i o : list bytes) : bool :=
   if beq (get i 0) k_rule then rule_ok i o
   else if beq (get i 0) k_burst then burst_ok i o && burst_faithful i o
   else if beq (get i 0) k_hold then hold_ok i o
+  else if beq (get i 0) k_fresh then fresh_ok i o && fresh_faithful i o
   else false.
 
 Definition entry_C10 : entry :=
